@@ -616,7 +616,7 @@ impl Cli {
 
 fn good_case(nmax: usize) -> BoxedStrategy<GoodCase> {
     (
-        (gen::graph(nmax), any::<bool>(), 0u8..4, vec(any::<u8>(), nmax), 0u8..6),
+        (gen::graph(nmax), any::<bool>(), prop_oneof![10 => 0u8..4, 1 => Just(4u8)], vec(any::<u8>(), nmax), 0u8..6),
         (0u8..3, 0usize..7, 0u8..3, any::<u16>(), any::<u16>(), any::<bool>()),
         (0u8..4, 0u8..7, any::<bool>(), prop_oneof![9 => Just(false), 1 => Just(true)], prop_oneof![9 => Just(false), 1 => Just(true)], prop_oneof![3 => Just(0u8), 2 => 1u8..12, 2 => 12u8..130], prop_oneof![4 => Just(false), 1 => Just(true)], prop_oneof![15 => Just(false), 1 => Just(true)]),
     )
